@@ -3,6 +3,7 @@ public API over a stated, finite grid of inputs, and each case is judged by an o
 (/verif/grid/<name>.rs, an integration test that prints GRID-FAIL / GRID-DONE lines).
 
 A grid is never counted as proof.  run_check.py uses it
+  * in the quick tier as a SAMPLE (of every family of cases the first four, then every 8th) next to the proof;
   * when the contract proof of a property is UNDECIDED on the tree under test (the changed code left the subset Verus accepts,
     or an anchor of the extraction is gone): a failing case is then a concrete input that violates the property on the real
     code - reported as a VIOLATION with that input; no failing case -> the check reports what it is: bounded only;
@@ -39,11 +40,12 @@ def _scratch(repo, workdir, names):
     return dst, unique
 
 
-def _run_one(crate, name, only=None, timeout=1500):
+def _run_one(crate, name, only=None, timeout=1500, stride=1):
     env = dict(os.environ)
     env['CARGO_NET_OFFLINE'] = 'true'
     env['CARGO_TARGET_DIR'] = scratchcrate.target_dir()
     env['VERIF_GRID_ONLY'] = only or ''
+    env['VERIF_GRID_STRIDE'] = str(stride)
     p = subprocess.run(['cargo', 'test', '--offline', '--test', 'verif_grid_%s' % name, '--', '--nocapture', '--test-threads=1'],
                        cwd=crate, env=env, stdout=subprocess.PIPE, stderr=subprocess.STDOUT, text=True, timeout=timeout)
     out = p.stdout
@@ -54,7 +56,7 @@ def _run_one(crate, name, only=None, timeout=1500):
     return out, fails, done
 
 
-def run(pid, gspec, repo, workdir):
+def run(pid, gspec, repo, workdir, stride=1):
     names = gspec['sets']
     crate, unique = _scratch(repo, workdir, names)
     t0 = time.time()
@@ -62,7 +64,7 @@ def run(pid, gspec, repo, workdir):
     try:
         for n in names:
             try:
-                out, fails, done = _run_one(crate, n)
+                out, fails, done = _run_one(crate, n, stride=stride)
             except subprocess.TimeoutExpired:
                 raise Undecided('grid %s: wall-clock cap exceeded' % n)
             if not done:
@@ -71,7 +73,7 @@ def run(pid, gspec, repo, workdir):
             cases = int(done.group(2))
             if cases == 0:
                 raise Undecided('grid %s ran zero cases (vacuous)' % n)
-            per[n] = {'cases': cases, 'fails': int(done.group(3))}
+            per[n] = {'cases': cases, 'fails': int(done.group(3)), 'stride': stride}
             for f in fails[:3]:
                 failures.append({'unit': 'grid', 'fn': 'grid::' + n, 'clause': f['case'], 'obligation': 'grid::%s::%s' % (n, f['case']),
                                  'message': 'bounded stand-in: the property statement does not hold on the real code for this input: ' + f['what'],
@@ -82,7 +84,7 @@ def run(pid, gspec, repo, workdir):
         shutil.rmtree(crate, ignore_errors=True)
         scratchcrate.cleanup(unique)
     return {'unit': 'grid', 'backend': 'bounded-grid', 'failures': failures, 'per_grid': per, 'wall_s': round(time.time() - t0, 2),
-            'bound': gspec.get('bound', ''),
+            'bound': gspec.get('bound', '') + (' - SAMPLED in this run: of every family of cases the first four and then every %d-th' % stride if stride > 1 else ''),
             'cmd': 'cargo test --offline --test verif_grid_<name> -- --nocapture (scratch copy of the tree + grid/<name>.rs + grid/common.rs)'}
 
 
